@@ -247,6 +247,23 @@ def analyse(mod, run, label):
                     isconst0 = v["k"] == "int" and int(v["v"]) == 0
                     if not isconst0:
                         covered["M3"].append(fn.name)
+                        if lv != la:
+                            # copied from the same field of a local metadata object that a callee filled from our count argument (the callee's
+                            # own M3 vouches for what it stored there)
+                            sv_ = strip_casts(fn, v)
+                            if sv_["k"] == "inst" and fn.imap[sv_["v"]].op == "load":
+                                r_, o_ = fi.ptr(fn.imap[sv_["v"]].ops[0])
+                                if r_[0] == "alloca" and o_.is_const():
+                                    for c_ in fn.calls():
+                                        g_ = mod.fn(c_.get("callee") or "")
+                                        if g_ is None or not g_.blocks: continue
+                                        gc_ = g_.param_index("count")
+                                        for (m_, t_) in meta_params(g_):
+                                            if t_ != t or m_ >= c_["nargs"] or gc_ is None or gc_ >= c_["nargs"]: continue
+                                            rr_, oo_ = fi.ptr(c_.ops[m_])
+                                            if rr_ == r_ and oo_.is_const() and fi.lin(c_.ops[gc_]) == la:
+                                                fo_ = next((n_ for (n_, off_, sz_, isu_) in eng.layout.di_fields(t) if off_ == o_.c - oo_.c and not isu_), None)
+                                                if fo_ == fld: lv = la
                         run.check(lv == la, "M3-count-is-argument", {"fn": fn.name, "field": fld},
                                   Finding("M3-count-not-argument", fn.name, "%s.%s" % (t, fld), "store",
                                           "%s stores %r into %s, not its count argument" % (fn.name, lv, fld), loc=loc(i)))
